@@ -226,7 +226,7 @@ static ClassResult classify_text(const std::string &plan_text, const std::string
     if (line.compare(0, 7, "SYNERR ") == 0) continue;
     if (line.compare(0, 6, "PLLEN ") == 0 && !got_error) {
       int a, b;
-      if (sscanf(line.c_str(), "PLLEN %d %d", &a, &b) == 2) pl_longer = a > b;
+      if (sscanf(line.c_str(), "PLLEN %d %d", &a, &b) == 2) pl_longer = a >= b;
       continue;
     }
     if (line.compare(0, 8, "OPBEGIN ") == 0 && !got_error) {
@@ -286,7 +286,7 @@ static ClassResult classify_text(const std::string &plan_text, const std::string
     kind = b;
   }
   if (site.empty()) site = opkind;
-  if (opkind == "PARSE" && pl_longer) site += "(parser-list-longer-than-tokens)";
+  if (opkind == "PARSE" && pl_longer) site += "(parser-list-index-past-tokens)";
   std::string prop = "C14";
   if (any_fault) prop = "C17";
   else if (opkind == "FREE_TREE" || opkind == "WALK") prop = "C13";
